@@ -103,11 +103,12 @@ Section Spec.
     if in_grid (s_geom s) x then Fsum vs (s_tab s) (bin_centre (s_geom s) x) k j + Fsum vs (s_pend s) x k j
     else Fsum vs (s_all s) x k j.
 
-  (* ebMeta: the inverse of the target distribution at the bin of x (bins of the configured boundaries), ramped in
-     linearly from 1 during the first ebMetaEquilSteps steps *)
+  (* ebMeta: the inverse of the target distribution at the bin of x (bins of the configured boundaries, wrapped
+     along periodic dimensions; beyond the boundaries the closest edge bin), ramped in linearly from 1 during the
+     first ebMetaEquilSteps steps *)
   Definition eb_factor (i : inR) : R :=
     if c_eb c then
-      let r := 1 / c_eb_target c (cbins Rops vs (c_geom0 c) (i_x i)) in
+      let r := 1 / c_eb_target c (tbins Rops c (i_x i)) in
       if (i_it i <? c_eb_equil c)%Z
       then let lam := IZR (c_eb_equil c - i_it i) / IZR (c_eb_equil c) in lam + (1 - lam) * r
       else r
